@@ -41,25 +41,24 @@ def verify_one(job):
         res['used_assumptions'] = sorted(ex.used_assumptions)
         res['paths'] = ex.path_count
         c = T.get(qual)
+        def on_sat(ob):
+            from pyvc import replay
+            rp = getattr(c, 'replay', None)
+            if rp is not None:
+                return rp(ex, ob, ob.model)
+            return replay.replay_function(ex, c, qual, ob.model, ex.args0)
         for ob in obls:
-            solve.solve(ob, second_opinion=opts.get('second', False))
-            d = {'name': ob.name, 'kind': ob.kind, 'status': ob.status,
-                 'backend': ob.backend, 'time': round(ob.time, 4),
+            if os.environ.get('PYVC_TRACE'):
+                print('solving', ob.name, file=sys.stderr, flush=True)
+            r = solve.solve_isolated(ob, opts.get('second', False), on_sat)
+            d = {'name': ob.name, 'kind': ob.kind, 'status': r['status'],
+                 'backend': r.get('backend'), 'time': round(r['time'], 4),
                  'line': ob.line, 'note': ob.note}
-            if getattr(ob, 'second', None):
-                d['second'] = ob.second
-            if ob.status == 'sat' and ob.kind == 'proof':
-                d['model'] = solve.model_to_dict(ob.model)
-                rp = getattr(c, 'replay', None)
-                try:
-                    if rp is not None:
-                        d['replay'] = rp(ex, ob, ob.model)
-                    else:
-                        from pyvc import replay
-                        d['replay'] = replay.replay_function(
-                            ex, c, qual, ob.model, ex.args0)
-                except Exception as e:      # replay is best effort
-                    d['replay'] = {'status': 'no-replay', 'why': repr(e)}
+            if r.get('second'):
+                d['second'] = r['second']
+            if r['status'] == 'sat' and ob.kind == 'proof':
+                d['model'] = r.get('model', {})
+                d['replay'] = r.get('extra') or {'status': 'no-replay'}
             res['obligations'].append(d)
     except sym.Unsupported as e:
         res['unsupported'] = str(e)
